@@ -361,6 +361,11 @@ pub fn mirror_scenario(prop: &str, seed: u64, index: u64) -> Option<Scenario> {
         let kth = if index % 3 == 0 { 1 + (index / 3) % 256 } else { 0 };
         scn.params.insert("fault_kth".into(), kth as f64);
         scn.params.insert("fault_target".into(), (index / 5 % 3) as f64); // 0,1 = validity callback, 2 = is_satisfied
+        // half of the k-th-call faults of the goal predicate fall on exactly the call at which
+        // the planner reaches the goal (pysim finds that call with a dry run)
+        if kth > 0 && index / 5 % 3 == 2 && index % 2 == 0 {
+            scn.params.insert("fault_at_goal_call".into(), 1.0);
+        }
     }
     Some(scn)
 }
